@@ -308,7 +308,16 @@ pub fn binds_json(binds: &[(String, CelValue)]) -> Value {
 }
 
 /// Compile through the public API; a panic is an outcome.
+/// RVMON_SHOW=1 prints every source before it is compiled (to find out what a non-returning case was doing).
+pub fn show_src(src: &str) {
+    thread_local!(static SHOW: bool = std::env::var("RVMON_SHOW").is_ok());
+    if SHOW.with(|s| *s) {
+        eprintln!("SRC {}", clip(src, 4000));
+    }
+}
+
 pub fn compile(src: &str) -> Result<Program, Out> {
+    show_src(src);
     match catch(|| Program::from_source(src)) {
         Ok(Ok(p)) => Ok(p),
         Ok(Err(e)) => Err(Out::Err(e)),
